@@ -86,10 +86,12 @@ func endsWithSeparator(info *types.Info, e ast.Expr) bool {
 }
 
 // pathRelation: C03.1a / C18.1.
-func pathRelation(c *engine.Ctx, id string, pkgs []string) {
+func pathRelation(c *engine.Ctx, id string, pkgs []string) { pathRelationMin(c, id, pkgs, 3) }
+
+func pathRelationMin(c *engine.Ctx, id string, pkgs []string, min int) {
 	o := c.Custom(id, "pathrel", "a prefix test between two path-typed strings goes through "+subtreeHelper+" or appends a separator to its second operand",
 		"'lies beneath' decided on raw text also hits siblings whose names share a textual prefix with a deleted or requested node")
-	defer o.Done(3)
+	defer o.Done(min)
 	in := map[string]bool{}
 	for _, p := range pkgs {
 		in[p] = true
